@@ -18,6 +18,7 @@ import (
 	"github.com/insomniacslk/dhcp/dhcpv4/nclient4"
 	"verif/harness/cli"
 	"verif/harness/mon"
+	"verif/harness/proj"
 	"verif/harness/ref4"
 	"verif/harness/sconn"
 )
@@ -110,7 +111,8 @@ type injected struct {
 	yi     [4]byte
 	class  string // valid | dropped (wrong xid/hw/opcode/undecodable)
 	retSeq int64
-	taken  bool // a read of the client's took it off the wire (false: still unread when the client was closed)
+	canon  string // the datagram as an independent decoder reads it ("" if it does not decode)
+	taken  bool   // a read of the client's took it off the wire (false: still unread when the client was closed)
 }
 
 type txrec struct {
@@ -277,6 +279,21 @@ func (w *world) datagram(sv *server, si int, kind string, req *ref4.P4) (*inject
 		}
 	}
 	b := p.ToBytes()
+	if n%6 == 2 && len(b) >= 236 {
+		// header names that fill their fields to the last octet (64 and 128 octets, no NUL): no encoder of this library
+		// writes them, servers that copy names into fixed fields do
+		for i := 44; i < 108; i++ {
+			b[i] = 'a' + byte((i+n)%26)
+		}
+		if n%12 == 2 {
+			for i := 108; i < 236; i++ {
+				b[i] = 'A' + byte((i+n)%26)
+			}
+		}
+	}
+	if q, ok, _ := ref4.Decode(b); ok {
+		in.canon = q.Canon()
+	}
 	switch kind {
 	case "undecodable":
 		b = b[:100]
@@ -587,6 +604,24 @@ func judge(r *mon.Rec, t *testing.T, sc scenario) {
 		if comp != nil && comp.nonce != ack.nonce && comp.retSeq < ack.retSeq && len(requests) == 1 {
 			bad("not-first-completion", "lease completed by datagram %d although %d (kind %s) was delivered first", ack.nonce, comp.nonce, comp.kind)
 			return
+		}
+		// "a lease made of that very offer and ACK": what the lease holds reads like the datagrams that arrived
+		for _, pr := range []struct {
+			what string
+			p    *dhcpv4.DHCPv4
+			in   *injected
+		}{{"Offer", o.lease.Offer, chosen}, {"ACK", o.lease.ACK, ack}} {
+			if pr.p == nil || pr.in == nil || pr.in.canon == "" {
+				continue
+			}
+			if g, ok := proj.P4(pr.p); !ok || g.Canon() != pr.in.canon {
+				got := ""
+				if ok {
+					got = g.Canon()
+				}
+				bad("lease-holds-other-contents", "lease.%s is datagram %d but does not read like it: %.300s vs %.300s", pr.what, pr.in.nonce, got, pr.in.canon)
+				return
+			}
 		}
 		if nonceOf(o.lease.Offer) != chosen.nonce {
 			bad("lease-offer", "lease.Offer is not the selected offer")
